@@ -231,7 +231,14 @@ def refresh_obligation(prog, rule, cname, mname):
     def assigned(stmts):
         """(definitely assigned attrs, all assigned attrs, [(attr, guarding If)] for conditional ones)."""
         must, anyw, cond = set(), set(), []
-        for st in stmts:
+        for k_, st in enumerate(stmts):
+            if isinstance(st, ast.If) and not st.orelse and st.body and isinstance(st.body[-1], ast.Return):
+                # an early return: everything after it happens only when the test fails
+                m1, a1, c1 = assigned(st.body[:-1])
+                m2, a2, c2 = assigned(stmts[k_ + 1:])
+                anyw |= a1 | a2
+                cond += c1 + c2 + [(a, st) for a in (a1 | a2) if a not in {x for x, _ in c1 + c2}]
+                return must, anyw, cond
             if isinstance(st, ast.Assign):
                 for t in st.targets:
                     for x in ast.walk(t):
@@ -264,16 +271,52 @@ def refresh_obligation(prog, rule, cname, mname):
         own = Ownership(prog)
         attr_out, _ = class_attr_aliases(own, prog, ci, ctor=mname)
         for a, st in cond:
-            keys = sorted({x.attr for x in ast.walk(st.test) if isinstance(x, ast.Attribute) and isinstance(x.value, ast.Name) and x.value.id == sn}) \
+            keys = sorted({x.attr for x in ast.walk(st.test) if isinstance(x, ast.Attribute) and isinstance(x.value, ast.Name) and x.value.id == sn}
+                          | {x.args[1].value for x in ast.walk(st.test) if isinstance(x, ast.Call) and isinstance(x.func, ast.Name)
+                             and x.func.id == "getattr" and len(x.args) >= 2 and isinstance(x.args[0], ast.Name) and x.args[0].id == sn
+                             and isinstance(x.args[1], ast.Constant) and isinstance(x.args[1].value, str)}) \
                 if isinstance(st, ast.If) else []
             shared = [k for k in keys if any(root_param(r) is not None for r in attr_out.get(k, ()))]
-            if not keys:
+            # the arguments the refreshed value is computed from must all be looked at by the guard
+            from ..term import Resolver
+            rz_ = Resolver(fn, prog, ci.module, ci)
+            params_ = {x.arg for x in fn.args.args[1:]}
+            dep = set()
+            for s2 in ast.walk(fn):
+                if isinstance(s2, ast.Assign) and any(isinstance(t, ast.Attribute) and isinstance(t.value, ast.Name) and t.value.id == sn
+                                                       and t.attr == a for t in s2.targets):
+                    vt_ = rz_.term(s2.value, s2)
+                    if any(isinstance(x, ast.Attribute) and isinstance(x.value, ast.Name) and x.value.id == sn and x.attr == a
+                           for x in ast.walk(vt_)):
+                        continue         # an update of the attribute from its own value (accumulation), not a memoised result
+                    dep |= {x.id for x in ast.walk(vt_) if isinstance(x, ast.Name) and x.id in params_}
+            seen_ = {x.id for x in ast.walk(rz_.term(st.test, st)) if isinstance(x, ast.Name)} if isinstance(st, ast.If) else set()
+            unseen = sorted(dep - seen_)
+            if unseen and isinstance(st, ast.If):
+                why.append(f"self.{a} is computed from the argument `{unseen[0]}` but is refreshed only when `{U(st.test)}` (line {st.lineno}), "
+                           f"a test that does not look at `{unseen[0]}`: a call with another value of it gets the stale result")
+            elif not keys:
                 why.append(f"self.{a} is refreshed only conditionally (line {st.lineno}) and the guard consults no stored key")
             elif shared:
                 why.append(f"self.{a} is refreshed only when `{U(st.test)}` (line {st.lineno}), but the stored key self.{shared[0]} may alias the "
                            f"caller's array: after an in-place edit of that array the guard compares it with itself and the stale value is kept")
     return struct_ob(rule, qual(ci, fn), not why, "; ".join(why[:3]), ci.module.relpath, fn.lineno,
                      slots={"maintained": sorted(anyw), "conditional": sorted({a for a, _ in cond})})
+
+
+def path_statements_all(stmts, assume):
+    """Like path_statements, but undecided branches are entered on both arms and every simple statement met is returned
+    (a flat over-approximation of what may execute under the assumption)."""
+    out = []
+    for st in path_statements(stmts, assume):
+        if isinstance(st, ast.If):
+            out.extend(path_statements_all(st.body, assume))
+            out.extend(path_statements_all(st.orelse, assume))
+        elif isinstance(st, (ast.For, ast.While, ast.With, ast.Try)):
+            out.extend(path_statements_all(st.body, assume))
+        else:
+            out.append(st)
+    return out
 
 
 def path_statements(stmts, assume):
@@ -311,4 +354,43 @@ def path_statements(stmts, assume):
                 return True
         return False
     walk(stmts)
+    return out
+
+
+def dtype_hazard_obligations(prog, rule, rels):
+    """One obligation per source file: no construct that silently switches to integer arithmetic for a legal integer-typed
+    input (see lints.integer_dtype_hazards).  The repository's numeric code converts with `dtype=float` or not at all."""
+    from .. import lints
+    from ..model import iter_functions
+    out = []
+    for rel_ in rels:
+        mi = prog.module(rel_)
+        hits = []
+        n_fn = 0
+        for qn, fn in iter_functions(mi.tree):
+            n_fn += 1
+            for line, text, why in lints.integer_dtype_hazards(fn):
+                hits.append((qn, line, text, why))
+        msg = ""
+        if hits:
+            qn, line, text, why = hits[0]
+            msg = f"`{text}` in {qn} (line {line}): {why}" + (f" (+{len(hits) - 1} more)" if len(hits) > 1 else "")
+        out.append(struct_ob(rule, rel_, not hits, msg, rel_, hits[0][1] if hits else 0, slots={"functions_scanned": n_fn, "hits": len(hits)}))
+    ex = ast.parse("def f(q, x):\n    return asarray(q, dtype=x.dtype), reciprocal(x), zeros_like(x)\n").body[0]
+    if len(lints.integer_dtype_hazards(ex)) != 3:
+        raise AnalysisError("dtype-hazard lint lost its positive examples")
+    return out
+
+
+def memo_obligations(prog, rule, classes, skip=("__init__", "pass_spatial_data", "estimate_hyperpar_bounds", "load", "load_items")):
+    """refresh_obligation for every method of the classes that assigns an attribute of self only conditionally (outside the
+    set-up methods): a memoised result must be keyed on every argument it is computed from, by a key that owns its data."""
+    out = []
+    for ci in classes:
+        for mname, fn in ci.methods.items():
+            if mname in skip or not fn.args.args or any(ast.unparse(d) in ("staticmethod", "classmethod") for d in fn.decorator_list):
+                continue
+            o = refresh_obligation(prog, rule, ci.name, mname)
+            if o.slots.get("conditional") or not o.ok:
+                out.append(o)
     return out
